@@ -11,6 +11,7 @@ Import ListNotations.
 FAM = {"L": [[[None, "meter", 1]], [["kilo", "meter", 1]], [["milli", "meter", 1]], [[None, "foot", 1]], [[None, "inch", 1]]],
        "T": [[[None, "second", 1]], [[None, "minute", 1]], [["milli", "second", 1]], [[None, "hour", 1]]],
        "M": [[[None, "gram", 1]], [["kilo", "gram", 1]], [[None, "pound", 1]]],
+       "A": [[[None, "degree", 1]], [[None, "radian", 1]], [[None, "arcminute", 1]]],
        "V": [[[None, "meter", 1], [None, "second", -1]], [["kilo", "meter", 1], [None, "hour", -1]], [[None, "foot", 1], [None, "second", -1]]]}
 
 def frac(n): return Fraction(int(n[1]), int(n[2]))
@@ -59,7 +60,7 @@ def main():
     cases = []
     for _ in range(n):
         op = rng.choice(["add", "sub", "mul", "div", "pow", "mul", "div"])
-        kinds = rng.choice([("int", "float"), ("int", "float"), ("dec",), ("float",)])
+        kinds = rng.choice([("int", "float"), ("int", "float"), ("dec",), ("float",), ("dec", "float"), ("dec", "int")])
         fam = rng.choice(list(FAM))
         l = gen_operand(rng, fam, kinds)
         if op == "pow":
